@@ -152,7 +152,7 @@ func (f *File) Readdir(count int) (res []os.FileInfo, err error) {
 	if !f.fileData.dir {
 		return nil, &os.PathError{
 			Op:   "readdir",
-			Path: f.fileData.name,
+			Path: f.fileData.Name(),
 			Err:  errors.New("not a dir"),
 		}
 	}
@@ -234,7 +234,7 @@ func (f *File) Read(b []byte) (n int, err error) {
 
 func (f *File) ReadAt(b []byte, off int64) (n int, err error) {
 	if off < 0 {
-		return 0, &os.PathError{Op: "readat", Path: f.fileData.name, Err: os.ErrInvalid}
+		return 0, &os.PathError{Op: "readat", Path: f.fileData.Name(), Err: os.ErrInvalid}
 	}
 	prev := atomic.LoadInt64(&f.at)
 	atomic.StoreInt64(&f.at, off)
@@ -254,7 +254,7 @@ func (f *File) Truncate(size int64) error {
 	if f.readOnly {
 		return &os.PathError{
 			Op:   "truncate",
-			Path: f.fileData.name,
+			Path: f.fileData.Name(),
 			Err:  errors.New("file handle is read only"),
 		}
 	}
@@ -289,7 +289,7 @@ func (f *File) Seek(offset int64, whence int) (int64, error) {
 		f.fileData.Unlock()
 	}
 	if abs < 0 {
-		return 0, &os.PathError{Op: "seek", Path: f.fileData.name, Err: os.ErrInvalid}
+		return 0, &os.PathError{Op: "seek", Path: f.fileData.Name(), Err: os.ErrInvalid}
 	}
 	atomic.StoreInt64(&f.at, abs)
 	return abs, nil
@@ -302,7 +302,7 @@ func (f *File) Write(b []byte) (n int, err error) {
 	if f.readOnly {
 		return 0, &os.PathError{
 			Op:   "write",
-			Path: f.fileData.name,
+			Path: f.fileData.Name(),
 			Err:  errors.New("file handle is read only"),
 		}
 	}
@@ -337,7 +337,7 @@ func (f *File) Write(b []byte) (n int, err error) {
 
 func (f *File) WriteAt(b []byte, off int64) (n int, err error) {
 	if off < 0 {
-		return 0, &os.PathError{Op: "writeat", Path: f.fileData.name, Err: os.ErrInvalid}
+		return 0, &os.PathError{Op: "writeat", Path: f.fileData.Name(), Err: os.ErrInvalid}
 	}
 	prev := atomic.LoadInt64(&f.at)
 	atomic.StoreInt64(&f.at, off)
